@@ -323,6 +323,8 @@ def subscript(base: tuple, idx: tuple) -> tuple:
         ci = is_const(idx)
         if ci is not None and ci.denominator == 1 and -len(a[1]) <= ci < len(a[1]):
             return a[1][int(ci)]
+        if a[0] == "list":
+            base = atom_poly(("tuple", a[1]))      # [a, b, c][i] is (a, b, c)[i]
     return atom_poly(("sub", base, (idx,)))
 
 
@@ -574,6 +576,8 @@ class Translator:
         else:
             ix = (self.tr(idx),)
         ba = single_atom(base)
+        if isinstance(idx, ast.Slice) and idx.lower is None and idx.upper is None and idx.step is None:
+            return base         # x[:] holds the elements of x, in order
         if isinstance(idx, ast.Slice) and ba is not None and ba[0] in ("tuple", "list") and idx.lower is None and idx.upper is None \
                 and isinstance(idx.step, ast.UnaryOp) and isinstance(idx.step.op, ast.USub) and isinstance(idx.step.operand, ast.Constant) and idx.step.operand.value == 1:
             return atom_poly((ba[0], tuple(reversed(ba[1]))))      # (a, b)[::-1] = (b, a)
